@@ -38,13 +38,17 @@ def unparse(node):
 
 
 def norm(node):
-    """Normalised statement/expression text: a line-number-free key."""
-    return " ".join(unparse(node).split())[:160]
+    """Normalised statement/expression text: a line-number-free key.  The result also compares equal to pattern
+    text that matches the node modulo canonical form and renaming of function locals (see pm.NormText)."""
+    from .pm import NormText
+
+    return NormText(" ".join(unparse(node).split())[:160], node if isinstance(node, ast.AST) else None)
 
 
 class Module:
-    def __init__(self, rel, tree, text):
+    def __init__(self, rel, tree, text, canon=False):
         self.rel = rel
+        self.canon = canon
         self.tree = tree
         self.text = text
         self.funcs = {}  # qualname -> node
@@ -54,6 +58,7 @@ class Module:
     def _index(self, node, prefix, parent):
         for child in ast.iter_child_nodes(node):
             child._parent = node
+            child._canon = self.canon
             if isinstance(child, FUNC):
                 q = prefix + child.name
                 child._qual = q
